@@ -51,6 +51,7 @@ TxAlphabet ==
   \cup { Tx(<<Exec1(BBuy(a, id, n))>>) : a \in {"A1"}, id \in 1..MaxReg, n \in {2, Big} }
   \cup { FeeTx(<<WRec("A1", 1, CapH(LastOf("wrk", 1) + 1)), WRec("A1", 1, CapH(LastOf("wrk", 1) + 2))>>) }
   \cup { FeeTx(<<BRec("A1", 1), BRec("A1", 1), BRec("A2", 1)>>) }
+  \cup { FeeTx(<<BBuy("A1", 1, 1), BBuy("A1", 1, 1)>>), FeeTx(<<WBuy("A1", 1, 1), WBuy("A1", 1, 2)>>) }
   \* a registration and a first record that are rolled back because the last message fails (the id stays free)
   \cup { FeeTx(<<[t |-> "WReg", owner |-> a, moniker |-> "m", name |-> "n", genesis |-> "g", type |-> "t"],
                   WRec(a, st.wrk.next, 1), WRec(a, st.wrk.next, 1)>>) : a \in {"A2", "A3"} }
